@@ -6,8 +6,10 @@ ASSUME = ["totality is decided for all token sequences up to the stated length o
           "non-termination = no answer within 3 s", "faithfulness is compared on the clauses' projection of types.Config (select items in order with aliases, WHERE/HAVING text modulo spacing and the documented lowering of = / AND / OR, GROUP BY, window kind and parameters, WITH options, ORDER BY, LIMIT, DISTINCT, JOIN)",
           "'results unchanged by layout' is implied by equal configurations (the engine is built from the configuration alone)"]
 
+LONGCASE = "CASE " + " ".join("WHEN v = %d THEN 'x%d'" % (i, i) for i in range(24)) + " ELSE 'z' END"      # about 150 tokens in ONE select item
 SEL = {"cols": ("id, limit_x, order1", ["id", "limit_x", "order1"]), "aliases": ("id AS fromage, v AS selectee, 'a LIMIT 3' AS lit", ["fromage", "selectee", "lit"]),
        "index": ("id, m[1][0] AS mm, cfg['a']['b'] AS cb, rows[0].v AS rv, o.f AS of1", ["id", "mm", "cb", "rv", "of1"]),
+       "longitem": ("id, " + LONGCASE + " AS big, w", ["id", "big", "w"]),
        "aggs": ("g, count(*) AS c, sum(v) AS s", ["g", "c", "s"]), "aggs2": ("g, avg(v) AS a, max(v) AS mx", ["g", "a", "mx"])}
 LONGW = " AND ".join("v%d > %d" % (i, i) for i in range(45))          # 45 comparisons, about 180 tokens: a long clause is a clause
 WHERE = {"none": ("", ""), "long": (LONGW, LONGW.replace(" AND ", "&&").replace(" ", "")), "cmp": ("v > 1", "v>1"), "kwlit": ("v > 1 AND name != 'ORDER BY x'", "v>1&&name!='ORDERBYx'"), "andor": ("v >= 2 AND w < 5 OR g = 'WHERE'", "v>=2&&w<5||g=='WHERE'")}
